@@ -616,15 +616,19 @@ class BatchProxy(object):
 
     def __call__(self, oneway=False):
         self.__proxy._pyroClaimOwnership()
-        results = self.__proxy._pyroInvokeBatch(self.__calls, oneway)
-        self.__calls = []  # clear for re-use
+        try:
+            results = self.__proxy._pyroInvokeBatch(self.__calls, oneway)
+        finally:
+            self.__calls = []  # clear for re-use (also when submitting fails: some of the calls may have been executed already)
         if not oneway:
             return self.__resultsgenerator(results)
 
     def _pyroInvoke(self, name, args, kwargs):
         # ignore all parameters, we just need to execute the batch
-        results = self.__proxy._pyroInvokeBatch(self.__calls)
-        self.__calls = []  # clear for re-use
+        try:
+            results = self.__proxy._pyroInvokeBatch(self.__calls)
+        finally:
+            self.__calls = []  # clear for re-use (also when submitting fails)
         return self.__resultsgenerator(results)
 
 
